@@ -353,6 +353,40 @@ namespace
     };
     template <> struct is_huge<HugeOffsetSteppingKind> : std::true_type {};
 
+    // the iterator of the optional containers over two plain pointer ranges (what xoptional_array<T, N, std::array<bool, N>>
+    // uses), of more than 2^31 elements each: the value and the flag iterator have to move in lock-step for every offset
+    struct HugeOptionalKind
+    {
+        static constexpr bool ra = true, lt = true, mut = false, ext = false;
+        using It = xtl::xoptional_iterator<const char*, const bool*>;
+        const char* mem = nullptr;
+        size_t n = 0, bytes = 0;
+        ~HugeOptionalKind() { if (mem) munmap(const_cast<char*>(mem), 2 * bytes); }
+        void build(size_t, Rng&)
+        {
+            n = (size_t(1) << 31) + 192;
+            if (!mem)
+            {
+                bytes = n + 4096 - n % 4096;
+                void* q = mmap(nullptr, 2 * bytes, PROT_READ, MAP_PRIVATE | MAP_ANONYMOUS | MAP_NORESERVE, -1, 0);
+                if (q == MAP_FAILED) std::abort();
+                mem = static_cast<const char*>(q);
+            }
+        }
+        It at(size_t p) { return It(mem + p, reinterpret_cast<const bool*>(mem + bytes) + p); }
+        It begin() { return at(0); } It end() { return at(n); }
+        long value(const It& it) { auto r = *it; return static_cast<long>(r.value()) * 2 + (r.has_value() ? 1 : 0); }
+        long index(const It& it, std::ptrdiff_t d) { auto r = it[d]; return static_cast<long>(r.value()) * 2 + (r.has_value() ? 1 : 0); }
+        long model(size_t) { return 0; }
+        void write(It&, size_t, long) {}
+        size_t pick_pos(uint64_t raw) const
+        {
+            size_t off = static_cast<size_t>((raw >> 3) % 64);
+            switch (raw & 3) { case 0: return off; case 1: return n - off; case 2: return (size_t(1) << 31) - off; default: return (size_t(1) << 31) + off; }
+        }
+    };
+    template <> struct is_huge<HugeOptionalKind> : std::true_type {};
+
     // ---- the walk ------------------------------------------------------------------------------------
     template <class K>
     struct World
@@ -621,4 +655,5 @@ namespace
     IT_CFG(stepping_offsets_beyond_2e31, HugeOffsetSteppingKind);
     IT_CFG(bitset_view_of_more_than_2e31_bits, HugeBitsetKind);
     IT_CFG(stepping_by_more_than_2e31, HugeSteppingKind);
+    IT_CFG(optional_iterator_over_more_than_2e31_elements, HugeOptionalKind);
 }
